@@ -261,4 +261,81 @@ theorem expandStep_missing (U : Universe) (store : Store) (dr : Nat → Bool) (g
   unfold expandStep
   simp only [hdim, Bool.false_eq_true, ↓reduceIte, hrec]
 
+
+/-! ### completeness: a data ID that agrees with the stored records is never called inconsistent -/
+
+/-- `keys` only holds values of the assignment `full`. -/
+def Within (full : Nat → Nat) (ks : Assoc) : Prop := ∀ k v, getv ks k = some v → v = full k
+
+theorem get_singleton (d v k : Nat) : getv [(d, v)] k = if d = k then some v else none := by
+  unfold getv
+  by_cases h : d = k
+  · simp [h]
+  · have : (d == k) = false := by simp [h]
+    simp [List.find?, this, h]
+
+/-- Merging a record that agrees with `full` into keys within `full` succeeds and stays within `full`. -/
+theorem merge_accepts (full : Nat → Nat) (rec : Record) : ∀ (imp : List Nat) (ks : Assoc),
+    (∀ d ∈ imp, (getv rec d).getD 0 = full d) → Within full ks →
+    ∃ ks', mergeImplied rec imp ks = .ok ks' ∧ Within full ks' := by
+  intro imp
+  induction imp with
+  | nil => intro ks _ hw; exact ⟨ks, rfl, hw⟩
+  | cons x xs ih =>
+    intro ks hrec hw
+    unfold mergeImplied
+    simp only []
+    have hx := hrec x List.mem_cons_self
+    have hxs : ∀ d ∈ xs, (getv rec d).getD 0 = full d := fun d hd => hrec d (List.mem_cons_of_mem _ hd)
+    cases hk : getv ks x with
+    | none =>
+      simp only []
+      apply ih _ hxs
+      intro k v hkv
+      rw [get_append, get_singleton] at hkv
+      cases hkk : getv ks k with
+      | some w => rw [hkk] at hkv; simp at hkv; rw [← hkv]; exact hw k w hkk
+      | none =>
+        rw [hkk] at hkv
+        by_cases hxk : x = k
+        · subst hxk; simp at hkv; rw [← hkv, hx]
+        · simp [hxk] at hkv
+    | some v' =>
+      simp only []
+      have : v' = (getv rec x).getD 0 := by rw [hx]; exact hw x v' hk
+      simp only [this, beq_self_eq_true, ↓reduceIte]
+      exact ih ks hxs hw
+
+/-- **Completeness.** If every stored record agrees with one assignment `full` of values to
+dimensions and the given keys are within `full`, then `expandDataId` never answers
+`InconsistentDataIdError` because of a record it found: the walk over the lookup order either
+succeeds with keys within `full`, or stops for a *missing* key or record. -/
+theorem expandAll_complete (U : Universe) (store : Store) (dr : Nat → Bool) (g : List Nat) (full : Nat → Nat)
+    (hstore : ∀ e kv rec, store e kv = some rec → ∀ d ∈ (elemAt U e).imp, (getv rec d).getD 0 = full d) :
+    ∀ (es : List Nat) (ks : Assoc), Within full ks →
+      (∃ ks', expandAll U store dr g es ks = .ok ks' ∧ Within full ks') ∨
+      (∃ e ∈ es, ∃ ks0, Within full ks0 ∧
+        (((elemAt U e).isDim && (getv ks0 e).isNone) = true ∨
+          store e ((elemKeys U e).map fun k => (k, (getv ks0 k).getD 0)) = none)) := by
+  intro es
+  induction es with
+  | nil => intro ks hw; exact Or.inl ⟨ks, rfl, hw⟩
+  | cons e es ih =>
+    intro ks hw
+    unfold expandAll
+    by_cases hdim : ((elemAt U e).isDim && (getv ks e).isNone) = true
+    · exact Or.inr ⟨e, List.mem_cons_self, ks, hw, Or.inl hdim⟩
+    · have hdim' : ((elemAt U e).isDim && (getv ks e).isNone) = false := Bool.eq_false_iff.mpr hdim
+      cases hrec : store e ((elemKeys U e).map fun k => (k, (getv ks k).getD 0)) with
+      | none => exact Or.inr ⟨e, List.mem_cons_self, ks, hw, Or.inr hrec⟩
+      | some rec =>
+        obtain ⟨ks', hm, hw'⟩ := merge_accepts full rec _ ks (hstore e _ rec hrec) hw
+        have hstep : expandStep U store dr g ks e = .ok ks' := by
+          unfold expandStep
+          simp only [hdim', Bool.false_eq_true, ↓reduceIte, hrec, hm]
+        simp only [hstep]
+        rcases ih ks' hw' with h | ⟨e', he', ks0, hw0, hc⟩
+        · exact Or.inl h
+        · exact Or.inr ⟨e', List.mem_cons_of_mem _ he', ks0, hw0, hc⟩
+
 end C13
